@@ -8,13 +8,13 @@ SPEC = {'level': 'exploration',
                  'c52_server: mock sockets, peer address fixed to 5.5.5.5 (DynSock); c52_auth: real loopback TCP port chosen from the worker pid, credentials '
                  'rpcuser/rpcpassword + two rpcauth entries (cookie authentication shares the rpcuser code path and is not exercised)',
                  'server-level cases that exceed their time-out on an overloaded machine are counted (class *-timeout) and give no verdict'],
- 'stages': [gen('vh_c52', 'c52_parse', 8000, 150000, min_cases_quick=3000,
+ 'stages': [gen('vh_c52', 'c52_parse', 8000, 150000, min_cases_quick=1500,
                 floors={'reference-all-valid': 0.3, 'reference-invalid': 0.1, 'metamorphic-only': 0.1, 'all-2-splits': 0.3, 'pipelined-dispatch': 0.2, 'valid-chunked': 0.1,
                         'outcome-400': 0.15, 'outcome-413': 0.01, 'stream>8000': 0.03, 'murky-header-block-at-limit': 0.01, 'defect-header-block-too-large': 0.005},
                 rule='grammar streams parsed under all 2-splits / byte-by-byte / k-splits; non-trivial = >=20 fragmentations and (>=2 requests or chunked or error outcome)'),
-            gen('vh_c52', 'c52_server', 160, 3000, min_cases_quick=60, floors={'peer-allowed': 0.2, 'peer-refused': 0.15},
+            gen('vh_c52', 'c52_server', 160, 3000, min_cases_quick=40, floors={'peer-allowed': 0.2, 'peer-refused': 0.15},
                 rule='HTTPServer thread over mock sockets: allow list vs own CIDR reference; whole vs pieces delivery'),
-            gen('vh_c52', 'c52_auth', 480, 8000, min_cases_quick=200, floors={'rpc-executed': 0.15, 'refused-401': 0.3, 'auth-wrong-password': 0.03, 'auth-valid-canonical': 0.08},
+            gen('vh_c52', 'c52_auth', 480, 8000, min_cases_quick=100, floors={'rpc-executed': 0.15, 'refused-401': 0.3, 'auth-wrong-password': 0.03, 'auth-valid-canonical': 0.08},
                 rule='JSON-RPC on loopback: executed only with configured credentials'),
             gen('vh_c52', 'up_http_request', 4000, 80000, rule='upstream HTTPRequest parser target (supplementary)')]}
 
